@@ -1101,6 +1101,14 @@ def replay_tokenizer(ctx, cands):
                 def close(a, b): return a == b or (isinstance(a, (int, float)) and isinstance(b, (int, float)) and not isinstance(a, bool) and not isinstance(b, bool) and float(a) == float(b))
                 if comp3 and (len(got3) != len(want) or not all(close(a, b) for a, b in zip(got3, want))) and not any(isinstance(w, float) and w in (float('inf'), float('-inf')) for w in want):
                     bad = True; c.replay = {'stdin_bytes': repr(t + ' 7'), 'expected_values': want, 'actual_rows': got3, 'result': r3['result']}; c.unmodelled = None; break
+        if not bad and c.unmodelled and not env:
+            # a sign without digits is not a number: one error, and what follows is read as it stands
+            for t, want in (('- 7', [7]), ('- 5 7', [5, 7]), ('-\t5', [5]), ('[1, -, 3] 7', [3, 7])):
+                r4 = run_driver(ctx, ['--style', 'consise', '--on-error', 'stderr'], t.encode())
+                try: got4 = [json.loads(x) for x in show(r4['stdout']).splitlines()]
+                except Exception: got4 = show(r4['stdout'])
+                if got4 != want or 'error:' not in show(r4['stderr']):
+                    bad = True; c.replay = {'stdin_bytes': repr(t), 'expected_values': want, 'actual_rows': got4, 'stderr': show(r4['stderr'])[:120]}; c.unmodelled = None; break
         c.status = 'reproduced' if bad else ('unit' if c.family in ('tok.consumed', 'tok.location', 'tok.progress', 'tok.garbage', 'tok.end', 'tok.io_error') else 'not-reproduced')
 
 
